@@ -15,7 +15,8 @@
    [W] (the specification world: resolution orders) and [hashable] are arbitrary. *)
 From Coq Require Import List Arith Bool.
 Import ListNotations.
-From ZI Require Import Model.Ro Model.Adapter Model.Components Spec.Components Proofs.Components.
+From ZI Require Import Model.Ro Model.Adapter Model.Components Spec.Components Proofs.Components
+  Proofs.ComponentsLookup.
 
 (* registered*() list exactly the live registrations: each listing IS the ledger of the history
    (in order; the ledger is defined by filter / append / replace on plain lists) *)
@@ -142,6 +143,35 @@ Theorem C16_replace_order : forall (W : world) (hashable : value -> bool) (cls :
 Proof. exact replace_order_lemma. Qed.
 Print Assumptions C16_replace_order.
 
+(* the registries' pruning structures (_provided counts driving the lookup object's _extendors)
+   never hide what is stored, in ANY history (no hypothesis at all): a stored registration or
+   non-empty subscription leaf with provided p is listed among the extendors of every interface
+   p extends, and extendors only list specifications that extend the interface asked for.
+   Together with C16_registries_determined_by_listings: the walkers behind every query method see
+   exactly the listed registrations. *)
+Theorem C16_pruning_never_hides : forall (W : world) (hashable : value -> bool) ops,
+  let st := final W hashable ops in
+  forall r, r = c_utils st \/ r = c_adapters st ->
+    (forall q p n v i, In ((q, p, n), v) (adapters r) -> In i (iro W p) -> In p (ext_get (extendors r) i))
+    /\ (forall q p i, sub_leaf r (q, Some p) <> [] -> In i (iro W p) -> In p (ext_get (extendors r) i))
+    /\ (forall i p, In p (ext_get (extendors r) i) -> In i (iro W p)).
+Proof. exact pruning_never_hides_lemma. Qed.
+Print Assumptions C16_pruning_never_hides.
+
+(* queryUtility answers from the listings: what it returns is a listed utility of that name whose
+   provided interface extends the one asked for; and it returns something whenever such a utility
+   is listed.  (Which one, among several applicable, is C04's subject.) *)
+Theorem C16_queryUtility_from_listings : forall (W : world) (hashable : value -> bool) (cls : nat -> nat),
+  (forall a b, veq a = veq b -> hashable a = hashable b) ->
+  forall ops, forallb (ok_op cls) ops = true ->
+    let st := final W hashable ops in
+    (forall p n c, queryUtility W st p n = Some c ->
+       exists p' i f, In (RU p' n c i f) (registeredUtilities st) /\ In p (iro W p'))
+    /\ (forall p p' n c i f, In (RU p' n c i f) (registeredUtilities st) -> In p (iro W p') ->
+          queryUtility W st p n <> None).
+Proof. exact queryUtility_lemma. Qed.
+Print Assumptions C16_queryUtility_from_listings.
+
 (* ---- non-vacuity: a history with equal-but-distinct (1, 2) and unhashable (5, 6) components,
    a replacement, removals, adapters, subscription adapters and handlers meets the hypotheses and
    reaches a non-trivial state *)
@@ -178,3 +208,9 @@ Example C16_ex_replace :
   = [Unregistered (RU 3 0 (mkV 1 1) 0 None); Registered (RU 3 0 (mkV 6 5) 0 None)] /\
   evs_of (cstep W0 hashable0 (final W0 hashable0 (firstn 3 ex_ops)) (RegUtility (mkV 2 1) 3 0 0 (Some 9))) = [].
 Proof. vm_compute. repeat split. Qed.
+
+(* a lookup through the hierarchy: utility 6 is listed under interface 3, which extends 0 *)
+Example C16_ex_query :
+  queryUtility W0 (final W0 hashable0 ex_ops) 0 0 = Some (mkV 6 5) /\
+  In 0 (iro W0 3) /\ queryUtility W0 (final W0 hashable0 ex_ops) 0 1 = None.
+Proof. vm_compute. repeat split. right. left. reflexivity. Qed.
